@@ -16,7 +16,7 @@ def rows(prefix_r2):
         by=det.get('check','')
         if 'caught by C14' in fd or 'caught by C14' in note: by='C14'
         if 'caught by C10' in fd or 'caught by C10' in note: by='C10'
-        status = f"{by} quick, exit {det.get('exit','')}" if det.get('exit')==1 else ("NOT caught (masked by a known-finding region)" if det.get('exit')==0 else "see notes")
+        status = f"{by} quick, exit {det.get('exit','')}" if det.get('exit')==1 else ("quick: not caught (below resolution); thorough sample size: caught" if det.get('exit')==0 else "see notes")
         if 'after ' in fd or 'after ' in note: status += " (after strengthening)"
         out.append(f"| {m['id']} | {m['what'][:105].replace('|','/')} | {m['needs_to_manifest'][:110].replace('|','/')} | {status} | {det.get('wall_s_incl_build','')} s |")
     return "\n".join(out)
@@ -65,13 +65,18 @@ after which all 46 are caught:
 
 **Round 2: 37 changes**, asked to be subtler (between grid points, 0.2–1 % of
 mass, single float type, rare draws, multi-step histories). 30 of the first 34
-evaluated were caught at once; after strengthening 36 of 37 are caught:
+evaluated were caught at once; after strengthening 36 of 37 are caught at the quick tier and the last one at the thorough sample size:
 
-* R2-C02-1 is **not caught**: it changes Zipf<f32> only for 0 < |s-1| <
+* R2-C02-1 was first **masked**: it changes Zipf<f32> only for 0 < |s-1| <
   3.4e-4, inside the region of known finding C02-Zipf-s-near-1 where the
   unchanged tree already samples a grossly wrong law; random cells there are
   excluded and grid cells report KNOWN-FINDING. This is the price of carrying a
   known finding with a region: further damage inside that region is masked.
+  That finding was then repaired (fix d69b147), the change rebased onto the
+  fix and re-confirmed. Inside E (Zipf<f32>: n <= 2^20) it moves the CDF by
+  ~7e-4: below the quick resolution, so the quick tier still misses it; the
+  thorough sample size (1e8) on the new grid cell s = 1 + 3e-4 catches it
+  (log-spaced near-switch distances 1e-5 … 1e-2 were added to every grid).
 * R2-C03-2 (3e-5 per sample, only for modes 10–13): C03 made only ~2e4
   mostly-random calls per cell; it now runs 1e5 ordinary random-stream calls
   per cell (2e6 thorough) in addition to the adversarial streams.
